@@ -63,6 +63,10 @@ class Sym:
                     base = "*" + base
             elif isinstance(e, dict):
                 if "f" in e:
+                    el = _tuple_elem(base, e["f"]) if base.startswith("tuple{") and base.endswith("}") else None
+                    if el is not None:
+                        base = el
+                        continue
                     base = "%s.%s" % (base, e["n"] or e["f"])
                 elif "dc" in e:
                     base = "%s@%s" % (base, e["n"] or e["dc"])
@@ -102,8 +106,15 @@ class Sym:
                 # lossless integer widening: same value as an `as` cast
                 return "(%s as %s)" % (self.val(payload["args"][0], depth + 1), mconv.group(2))
             if any(name.endswith(s) or cal.endswith(s) or (s + "::<") in name for s in PURE):
-                args = ",".join(self.val(a, depth + 1) for a in payload["args"])
-                return "%s(%s)" % (_short(cal if "::Index" in cal else name), args)
+                argl = [self.val(a, depth + 1) for a in payload["args"]]
+                shown = _short(cal if "::Index" in cal else name)
+                # a slice method reached through Vec's Deref is the Vec method of the same name on the Vec itself
+                if shown.startswith("core::slice::<impl [T]>::") and argl:
+                    md = re.fullmatch(r"&\*?<std::vec::Vec<T, A> as std::ops::Deref(Mut)?>::deref(_mut)?\((.*)\)", argl[0])
+                    if md and shown.rsplit("::", 1)[-1] in ("len", "is_empty"):
+                        shown = "std::vec::Vec::<T, A>::" + shown.rsplit("::", 1)[-1]
+                        argl[0] = md.group(3)
+                return "%s(%s)" % (shown, ",".join(argl))
             return "call@%d:%s" % (b, _short(name))
         rhs = payload["rhs"]
         rv = rhs["rv"]
@@ -144,6 +155,8 @@ class Sym:
         vs = [c[0] for c in cases if c[1] == target]
         if len(vs) == 1 and target != t["otherwise"]:
             return (e, "==", vs[0])
+        if len(vs) > 1 and target != t["otherwise"]:
+            return (e, "in", tuple(sorted(vs)))
         return None
 
     def facts_at(self, block):
@@ -195,6 +208,28 @@ class Sym:
 
 def _short(name):
     return name
+
+
+def _tuple_elem(base, k):
+    """k-th element of a symbolic tuple aggregate 'tuple{a,b,...}' (top-level commas only)"""
+    inner = base[6:-1]
+    parts, depth, cur, prev = [], 0, "", ""
+    for ch in inner:
+        if ch in "([{<":
+            depth += 1
+        elif ch in ")]}" or (ch == ">" and prev != "-"):
+            depth -= 1
+        if ch == "," and depth == 0:
+            parts.append(cur)
+            cur = ""
+        else:
+            cur += ch
+        prev = ch
+    parts.append(cur)
+    try:
+        return parts[int(k)]
+    except (ValueError, IndexError, TypeError):
+        return None
 
 
 def split_bin(e):
